@@ -52,7 +52,18 @@ var palette = []string{
 var alertNames = []string{"Down", "HighErrors", "Flaky", "Load"}
 var recordNames = []string{"job:http:rate5m", "code:http:sum", "node:load:rate", "colon:less"}
 
-func drawRuleFile(rt *rapid.T, strict bool) string {
+var preexisting = []string{
+	"# pint snooze 1999-01-01 %s",                // expired long before any simulated instant
+	"# pint snooze 1999-06-01T00:00:00+02:00 %s", // expired
+	"# pint snooze 2099-01-01 %s",                // in force
+	"# pint disable %s",
+}
+
+var commentTargets = []string{"promql/regexp", "alerts/comparison", "promql/fragile", "alerts/template", "promql/rate", "promql/series", "alerts/for", "promql/aggregate", "rule/label", "alerts/annotation", "promql/impossible"}
+
+func drawRuleFile(rt *rapid.T, strict bool) string { return drawRuleFileC(rt, strict, false) }
+
+func drawRuleFileC(rt *rapid.T, strict, withComments bool) string {
 	var sb strings.Builder
 	if strict {
 		sb.WriteString("groups:\n- name: g\n  rules:\n")
@@ -67,6 +78,15 @@ func drawRuleFile(rt *rapid.T, strict bool) string {
 			name = recordNames[rapid.IntRange(0, len(recordNames)-1).Draw(rt, "rname")]
 		}
 		rule := fmt.Sprintf(tpl, name)
+		if withComments && rapid.IntRange(0, 2).Draw(rt, "precomment") == 0 {
+			// control comments that are already there: expired snoozes must stay without any effect,
+			// active ones must keep theirs, whatever else is added to the rule
+			k := rapid.IntRange(1, 2).Draw(rt, "nprecomments")
+			for j := 0; j < k; j++ {
+				c := fmt.Sprintf(preexisting[rapid.IntRange(0, len(preexisting)-1).Draw(rt, "pre")], commentTargets[rapid.IntRange(0, len(commentTargets)-1).Draw(rt, "pretarget")])
+				rule = c + "\n" + rule
+			}
+		}
 		if strict {
 			rule = "  " + strings.ReplaceAll(strings.TrimSuffix(rule, "\n"), "\n", "\n  ") + "\n"
 		}
